@@ -3,6 +3,7 @@ which sorter gets a capacity. All create_process bodies are inlined, from_str / 
 import itertools, json
 import z3
 from .lib import *
+from .mirsym import Unmodelled
 from .report import Candidate, Broken
 from .par import pmap
 
@@ -56,6 +57,7 @@ def s_preset(ex, st, func, args, ty):
 
 def s_iter_any(ex, st, func, args, ty):
     v = obj(st, args[0])
+    if st.meta[v.oid][1] == 'Iter' or 'lazy' in st.heap[v.oid]: return [(st, v)]          # into_iter() of an iterator is the iterator
     return [(st, seqobj(st, 'Iter', [slot(st, x) for x in st.heap[v.oid]['model']]))]
 
 
@@ -91,7 +93,11 @@ def make_map_closure(ctx, finished):
         if ex.feasible(st, d == 1):
             s2 = st.clone(); s2.pc.append(d == 1)
             payload = ex.load(s2, o.oid, ('f', 'Some', 0), 'u64')
-            clo = ex.find(r'::go::\{closure#0\}$')
+            try:
+                from .scen_kernels2 import closure_body
+                clo = closure_body(ex, func)              # the body whose closure type the call names (robust against renumbering)
+            except Exception:
+                clo = ex.find(r'::go::\{closure#0\}$')
             saved = s2.frames; s2.frames = []
             s2.status = 'running'; ex.new_frame(s2, clo, [args[1], payload])
             for r in ex.run(s2):
@@ -161,6 +167,53 @@ def chain(ctx, st, box):
     out.append(('?too-long',)); return out
 
 
+def s_collect_result(ex, st, func, args, ty):
+    """iter.map(f).collect::<Result<Vec<_>, _>>(): Ok(all payloads in order) unless an element is Err - then that first Err,
+    and no further element is asked for (the adaptor short-circuits)"""
+    from .scen_kernels2 import force, run_closure
+    it = obj(st, args[0]); h = st.heap[it.oid]
+    if 'lazy' in h and h['lazy'][0] == 'map':
+        kind, src, clo, body = h['lazy']
+        out = []
+        for s0, items in force(ex, st, src):
+            states = [(s0, [])]
+            for x in items:
+                nxt = []
+                for s_, acc in states:
+                    for s2, r in run_closure(ex, s_, body, clo, [x]):
+                        r = obj(s2, r); d = cval(ex.discr(s2, r).t)
+                        if d is None: raise Unmodelled('collect into Result: an element whose variant the path does not decide')
+                        if d == 1: out.append((s2, r))
+                        else: nxt.append((s2, acc + [s2.heap[r.oid][('f', 'Ok', 0)]]))
+                states = nxt
+            out += [(s_, ok(s_, seqobj(s_, 'Vec', acc))) for s_, acc in states]
+        return out
+    out = []
+    for s_, items in force(ex, st, args[0]):
+        vals = []; bad = None
+        for x in items:
+            x = obj(s_, x); d = cval(ex.discr(s_, x).t)
+            if d is None: raise Unmodelled('collect into Result: an element whose variant the path does not decide')
+            if d == 1: bad = x; break
+            vals.append(s_.heap[x.oid][('f', 'Ok', 0)])
+        out.append((s_, bad if bad is not None else ok(s_, seqobj(s_, 'Vec', vals))))
+    return out
+
+
+def s_split_first(ex, st, func, args, ty):
+    m = list(model(st, args[0]))
+    if not m: return [(st, none(st))]
+    t = named(st, st.fresh_name('split'), 'tuple'); st.heap[t.oid][('f', None, 0)] = slot(st, m[0]); st.heap[t.oid][('f', None, 1)] = slot(st, seqobj(st, 'slice', m[1:]))
+    return [(st, some(st, t))]
+
+
+def s_split_last(ex, st, func, args, ty):
+    m = list(model(st, args[0]))
+    if not m: return [(st, none(st))]
+    t = named(st, st.fresh_name('split'), 'tuple'); st.heap[t.oid][('f', None, 0)] = slot(st, m[-1]); st.heap[t.oid][('f', None, 1)] = slot(st, seqobj(st, 'slice', m[:-1]))
+    return [(st, some(st, t))]
+
+
 STAGE_OF = {'set': 'PreSet', 'split': 'SplitterProcess', 'filter': 'ActiveFilter', 'select': 'SelectionProcess', 'unique': 'Uniquness',
             'sort': 'SortProcess', 'limit': 'Limiter', 'group': 'GrouperProcess', 'merge': 'Merger'}
 
@@ -179,6 +232,8 @@ def _combo(args):
         (r'PreSetCollection>::create_process$', s_preset),
         (r'Box::<.*>::new$', s_box_new),
         (r'<std::string::String as Deref>::deref$|<Vec<.*> as Deref>::deref$|<Rc<.*> as Clone>::clone$|<Vec<PathBuf> as Clone>::clone$|<Titles as Default>::default$|<processor::Titles as Default>::default$|String::as_str$|<PathBuf as Deref>::deref$', s_default),
+        (r'as Iterator>::map::<std::result::Result<|as Iterator>::map::<Result<', __import__('vf.scen_kernels2', fromlist=['s_lazy']).s_lazy('map')), (r'as Iterator>::collect::<(std::result::)?Result<Vec<', s_collect_result),
+        (r'impl \[.*\]>::split_first$', s_split_first), (r'impl \[.*\]>::split_last$', s_split_last),
         (r'impl \[.*\]>::iter$|as IntoIterator>::into_iter$|Vec::<.*>::iter$', s_iter_any), (r'as Iterator>::rev$|DoubleEndedIterator>::rev$', s_iter_rev),
         (r'as Iterator>::next$', s_iter_next), (r'Vec::<.*>::is_empty$', s_vec_is_empty), (r'Option::<.*>::is_none$', s_is_none), (r'Option::<.*>::is_some$', s_is_some),
         (r'Option::<.*>::take$', s_opt_take),
@@ -356,7 +411,10 @@ def _combo(args):
                     cand('go.capacity', 'capacity-on-outer-sorter', f'a sorter that is not directly in front of the limiter gets a row capacity: chain {names}',
                          {'chain': names, 'n_sort': n_sort}, hav)
                 elif has_cap:
-                    payload = ex.load(d, sl.oid, ('f', 'Some', 0), 'usize').t
+                    payload = ex.load(d, sl.oid, ('f', 'Some', 0), 'usize')
+                    if not hasattr(payload, 't'):
+                        cand('go.capacity', 'capacity-unknown', 'the sorter capacity is not an integer the path determines', {'chain': names}, hav or 'opaque capacity'); continue
+                    payload = payload.t
                     okv, m = ex.valid(d, z3.Implies(dsc == 1, payload == skip_v + take_v))
                     if okv: f8['ok'] += 1
                     else: cand('go.capacity', 'capacity-not-skip-plus-take', 'the sorter capacity is not skip + take',
@@ -375,7 +433,9 @@ def go_chain(ctx, want=('go.chain', 'go.capacity', 'go.validate_before_io'), fil
     if files_only: combos = [(0, 0, 0, 0), (0, 0, 0, 1), (0, 0, 0, 2), (1, 1, 0, 2), (0, 0, 0, 3)]
     if ctx.quick and not files_only:
         combos = [c for c in combos if c[3] == 0 or (c[0] <= 1 and c[1] <= 1)]
-    run.bounds['go'] = f'Cli fully symbolic: every Option discriminant, unique, skip, take free; --select x{{0..{mx}}}, --sort-by x{{0..{mx}}}, --set x{{0,1}}, files x{{0,1}}; every from_str / get_processor outcome (Ok/Err); {len(combos)} vector-length combinations'
+    if not files_only:
+        combos += [(0, 3, 0, 0), (3, 0, 0, 0)] + ([] if ctx.quick else [(1, 3, 0, 0), (3, 1, 0, 0), (3, 3, 1, 0)])       # three repeated --sort-by / --select: where a middle element can go astray
+    run.bounds['go'] = f'Cli fully symbolic: every Option discriminant, unique, skip, take free; --select x{{0..{mx}}} and 3, --sort-by x{{0..{mx}}} and 3, --set x{{0,1}}, files x{{0,1}}; every from_str / get_processor outcome (Ok/Err); {len(combos)} vector-length combinations'
     run.assume('from_str / get_processor / PreSetCollection::create_process are summarised as "Ok(opaque configuration) or Err" here (their own behaviour is C18.b / C13)')
     results = pmap(_combo, [(ctx, c) for c in combos])
     descs = {'go.chain': 'the chain built by go(), read outside-in, is PreSet? Splitter? Filter? Selection1..n Uniquness? Sort_m..Sort_1 Limiter? Grouper|Merger? Output with each stage present iff its option is, and with the option\'s own parameters',
@@ -458,6 +518,8 @@ def replay_go(ctx, cands):
             c.status = 'unit'
 
 
+ROWS3 = [{'a': 1, 'p': 1, 'q': 2, 'k': 'x', 'f': True, 'l': []}, {'a': 1, 'p': 2, 'q': 1, 'k': 'y', 'f': True, 'l': []}, {'a': 0, 'p': 9, 'q': 9, 'k': 'x', 'f': True, 'l': []}, {'a': 1, 'p': 1, 'q': 1, 'k': 'z', 'f': False, 'l': []},
+         {'a': 1, 'p': 2, 'q': 0, 'k': 'y', 'f': True, 'l': []}, {'a': 2, 'p': 0, 'q': 0, 'k': 'x', 'f': True, 'l': []}]
 ROWS = [{'a': 3, 'k': 'z', 'f': True, 'l': [{'a': 9, 'k': 'z', 'f': True}]},
         {'a': 2, 'k': 'x', 'f': True, 'l': [{'a': 5, 'k': 'y', 'f': True}, {'a': 4, 'k': 'x', 'f': False}]},
         {'a': 1, 'k': 'y', 'f': True, 'l': [{'a': 3, 'k': 'x', 'f': True}]},
@@ -473,16 +535,17 @@ def replay_chain(ctx, c):
     o = c.model.get('options', {})
     tries = []
     n_sel = o.get('n_select', 0) or 0; n_sort = o.get('n_sort', 0) or 0
+    ROWS = ROWS3 if n_sort >= 3 or n_sel >= 3 else globals()['ROWS']
     for skip, take in ((1, 2), (0, 1), (0, 2), (2, None)):
         argv = []; kw = {}
         if o.get('n_set'): argv += ['--set', 'v=1']
         if o.get('split') in (True, 'True'): argv += ['--split-by', '.l']; kw['split'] = '.l'
         if o.get('filter') in (True, 'True'): argv += ['--filter', '.f']; kw['filt'] = '.f'
-        sel = [('.a', 'a'), ('.k', 'k')][:n_sel]
+        sel = [('.a', 'a'), ('.k', 'k'), ('.q', 'q')][:n_sel]
         for p, n in sel: argv += ['--select', f'{p}={n}']
         kw['selects'] = sel
         if o.get('unique') in (True, 'True'): argv += ['--unique']; kw['unique'] = True
-        srt = [('.a', False), ('.k', True)][:n_sort]
+        srt = ([('.a', False), ('.p', False), ('.q', False)] if n_sort >= 3 else [('.a', False), ('.k', True)])[:n_sort]
         for p, dsc in srt: argv += ['--sort-by', p + ('=DESC' if dsc else '')]
         kw['sorts'] = srt
         if o.get('limiter') in (True, 'True'):
